@@ -105,6 +105,23 @@ Proof.
                    (dead_root_balance zrk wumas wumalt wugeh pi dz es Hw Hc))).
 Qed.
 
+(* what the soil receives from the crop on an ordinary growth day (crop.go:492-497, 657-661), for every number of layers and organs:
+   the fast and slow pools of the top layer gain TOGETHER exactly the 70 % of the dead leaves' and stems' N that the crop's N sum loses
+   (0.56 + 0.14 = 0.7: nothing is created between crop and soil), neither pool decreases, and over all layers the pools gain
+   0.7 * (N of dead leaves and stems) + WUMM * (sum of the root shares) and nothing else *)
+Theorem C09_pool_inputs : forall (dgorgs : list R) (gehalt dt wumm f0 a0 : R) (shares nfos naos : list R),
+  fst (leaf_to_pools dgorgs gehalt dt f0 a0) + snd (leaf_to_pools dgorgs gehalt dt f0 a0) = f0 + a0 + 7 / 10 * Rsum dgorgs * gehalt * dt /\
+  (0 <= gehalt -> 0 <= dt -> Forall (fun d => 0 <= d) dgorgs ->
+     f0 <= fst (leaf_to_pools dgorgs gehalt dt f0 a0) /\ a0 <= snd (leaf_to_pools dgorgs gehalt dt f0 a0)) /\
+  ((0 < length nfos)%nat -> length nfos = length naos -> (length shares <= length nfos)%nat ->
+     let '(f, a) := pools_after dgorgs gehalt dt wumm shares nfos naos in
+     Rsum f + Rsum a = Rsum nfos + Rsum naos + 7 / 10 * Rsum dgorgs * gehalt * dt + wumm * Rsum shares).
+Proof.
+  exact (fun dgorgs gehalt dt wumm f0 a0 shares nfos naos =>
+           conj (leaf_to_pools_sum dgorgs gehalt dt f0 a0)
+             (conj (leaf_to_pools_mono dgorgs gehalt dt f0 a0) (pools_after_sum dgorgs gehalt dt wumm shares nfos naos))).
+Qed.
+
 (* N supply terms (crop.go:662-699), until round 9 mirrored in the harness and handed to the uptake model as oracle values: the mass
    flow with the transpiration stream is >= 0 in every layer (TP, C1 >= 0, WG > 0), the diffusion coefficient is >= 0, the diffusive
    supply has the sign of (N concentration of the soil solution - 14 mg/l) - towards the root above the threshold, away from it
@@ -145,3 +162,4 @@ Print Assumptions C09_root_depth_monotone_true.
 Print Assumptions C09_root_distribution.
 Print Assumptions C09_dead_root_n.
 Print Assumptions C09_supply_terms.
+Print Assumptions C09_pool_inputs.
